@@ -58,7 +58,7 @@ impl Op {
     }
 }
 
-const STR_VALUES: [&str; 5] = ["x", "", "a=b", "é€", " lead"];
+const STR_VALUES: [&str; 9] = ["x", "", "a=b", "é€", " lead", "trail ", " ", "tab\t", "nbsp\u{a0}"];
 
 fn ops(full: bool) -> Vec<Op> {
     let mut v = vec![];
@@ -68,7 +68,7 @@ fn ops(full: bool) -> Vec<Op> {
             Kind::S => {
                 v.push(Op::Set(i, Val::S("x".into())));
                 k += 1;
-                let alt = STR_VALUES[1 + k % 4];
+                let alt = STR_VALUES[1 + k % 8];
                 if full || VARS[i].2 {
                     v.push(Op::Set(i, Val::S(alt.into())));
                 }
@@ -84,8 +84,9 @@ fn ops(full: bool) -> Vec<Op> {
                 v.push(Op::Set(i, Val::A(vec!["l1".into()])));
                 v.push(Op::Push(i, "p1".into()));
                 if full {
-                    v.push(Op::Set(i, Val::A(vec!["l1".into(), "".into(), "é=2".into()])));
-                    v.push(Op::Push(i, "".into()));
+                    // adjacent duplicates, empty and blank-only lines, trailing blanks
+                    v.push(Op::Set(i, Val::A(vec!["l1".into(), "".into(), "".into(), "é=2 ".into()])));
+                    v.push(Op::Push(i, if i % 2 == 0 { "" } else { " " }.into()));
                 }
             }
         }
